@@ -106,6 +106,11 @@ def _regex_class(repo: Repo, ci: ClassInfo) -> bool:
             if lib_name(repo, m, c) in REGEX_FUNCS or (isinstance(c.func, ast.Attribute) and c.func.attr in REGEX_METHODS):
                 hit = True
                 break
+            # a bound `re.compile(p).match` kept for later application
+            par = parent(c)
+            if lib_name(repo, m, c) == "re.compile" and isinstance(par, ast.Attribute) and par.value is c and par.attr in REGEX_METHODS:
+                hit = True
+                break
         if d < 2:
             for g in callees_of(repo, m, byname=False):
                 if g.cls is None or g.cls is ci:
